@@ -68,6 +68,7 @@ T_SYN = [  # Transformer templates, one per patcher branch
     dict(name='n-oxide', p='[N;D3;z1;x0:1]', r='[A;+:1]-[O;-:2]', branch='charged new atom'),
     dict(name='dehydro', p='[C;z1;h1,h2,h3:1]-[C;z1;h1,h2,h3:2]', r='[A:1]=[A:2]', branch='bond order from replacement'),
     dict(name='add-atom', p='[C;D1;h3:1]', r='[A:1]-[F:2]', branch='new atom'),
+    dict(name='add-atom-h0', p='[C;D1;h3:1]', r='[A:1]-[N;h0:2]', branch='new atom with H count from the replacement'),
     dict(name='add-chain', p='[O;D1;z1:1]-[C:2]', r='[A:2]-[A:1]-[C:3](=[O:4])-[C:5]', branch='several new atoms bonded to each other'),
     dict(name='stereo-set', p='[A;M][C;h1;z1:1]([A;M])[A;M]', r='[A;@:1]', branch='stereo override'),
     dict(name='stereo-set2', p='[A;M][C;h1;z1:1]([A;M])[A;M]', r='[A;@@:1]', branch='stereo override'),
@@ -164,9 +165,20 @@ def _region(N, seeds):
     return reg, shell
 
 
+def template_of(rx):
+    """(pattern, replacement, delete_atoms) of a reactor; reactors built before install() are reconstructed from their public state"""
+    t = getattr(rx, '_b16', None)
+    if t is None:
+        from functools import reduce
+        from operator import or_
+        pat = rx._pattern if hasattr(rx, '_pattern') else reduce(or_, rx._patterns)
+        t = rx._b16 = (pat, rx._replacement, not isinstance(rx._to_delete, tuple))
+    return t
+
+
 def post_condition(rx, S, mu0, mu1, N, exact, mode):
     from chython.periodictable import AnyElement, Element
-    P, Rp, delete = rx._b16
+    P, Rp, delete = template_of(rx)
     sa_, na_ = S._atoms, N._atoms
     sb_, nb_ = S._bonds, N._bonds
     rnums = list(Rp)
@@ -557,7 +569,17 @@ def overlap_contract(texts, out):
     c = Counter(n for m in res for n in m)
     if any(v > 1 for v in c.values()):
         fire('overlap', f'numbers still collide: {[n for n, v in c.items() if v > 1][:6]}')
-    if len(res) != len(ms) or any(str(a) != str(b) or len(a) != len(b) for a, b in zip(ms, res)) or res[0] is not ms[0]:
+    def same(a, b):
+        if len(a) != len(b):
+            return False
+        if str(a) == str(b):
+            return True
+        from oracles.o01_gaps import gaps  # canonical strings of renumbered copies: C01 with its two documented gaps
+        if any(gaps(a)) and format(a, '!s') == format(b, '!s'):
+            _STAT['c01-gap-hits'] += 1
+            return True
+        return False
+    if len(res) != len(ms) or not all(same(a, b) for a, b in zip(ms, res)) or res[0] is not ms[0]:
         fire('overlap', 'results are not the input molecules (first one untouched)')
     if any(set(a) != set(domains.parse(t)) for a, t in zip(ms, texts)):
         fire('overlap', 'an input molecule was renumbered in place')
